@@ -56,7 +56,7 @@ func findInTurnTime(r *run.Rng, B *fx.Node, parent *types.Block, lo, hi uint32, 
 		return 0, false
 	}
 	span := int(hi - lo + 1)
-	start := r.Intn(span)
+	start := r.Intn(6) // early times leave room for descendants
 	for i := 0; i < span; i++ {
 		t := lo + uint32((start+i)%span)
 		m, err := B.InTurn(parent.Header, t)
@@ -78,7 +78,16 @@ func tblock(w *fx.World, b *types.Block, parent int, inTurn bool) TBlock {
 
 // buildMaterial builds one history on a helper node with the outsider identity. The helper
 // never stabilises anything, so none of its background goroutines reads the self key.
-func buildMaterial(r *run.Rng, idx int, shape string, T0 uint32, selfIdx int) (*Material, error) {
+func buildMaterial(r *run.Rng, idx int, shape string, T0 uint32, selfIdx int) (mat *Material, err error) {
+	for try := 0; try < 4; try++ {
+		if mat, err = buildMaterial1(r, idx, shape, T0, selfIdx); err == nil {
+			return mat, nil
+		}
+	}
+	return nil, err
+}
+
+func buildMaterial1(r *run.Rng, idx int, shape string, T0 uint32, selfIdx int) (*Material, error) {
 	if shape == "" {
 		shape = []string{"random", "random", "deepchain", "forks", "mine", "bgsign"}[r.Intn(6)]
 	}
